@@ -10,7 +10,8 @@ EXPLANATION = (
     "and saves the old bytes (undo_write_tdb) before forwarding to the backing channel, never forwarding when the save "
     "failed; undo_write_tdb reads and records a block only if it was not recorded before (first write wins), marks it and "
     "rewrites the indexes; undo_close stores the FINISHED marker before the final flushed index write and nobody else "
-    "stores it; all six tools install the manager the same way; re-opening an undo file validates header magic/CRC/"
+    "stores it; all six tools install the manager the same way and never remove or truncate a user-named undo file (it is "
+    "re-opened and appended to); re-opening an undo file validates header magic/CRC/"
     "geometry/features/superblock and every key block before use; e2undo performs all checksum comparisons before its "
     "first device write, leaves on any mismatch unless forced, and never writes under -n.  Decides the discipline on all "
     "paths; does not decide the key/extent arithmetic of undo_write_tdb.")
@@ -300,6 +301,47 @@ def run(world, rep, tier, only=None):
             ok = bool(via_v) and not bypass
             rep.ob("C12.d", site(cf, "opens through the installed manager after %s" % fname), ok,
                    "open calls after setup use `%s`: %s" % (v, [o.text()[:40] for o in o_after[:3]]))
+
+    # ------------------------------------------------------------------ C12.h
+    # A user-named undo file is re-opened and appended to (one file rolls back a whole chain of
+    # runs): on the paths on which the tool was given a name, nothing removes or truncates a file
+    # before the manager is installed.  The default-named file, by contrast, is removed first.
+    n_lit = 0
+    for (pn, file, fname) in SETUP:
+        p2 = world.program(pn)
+        fn = p2.fn(fname, file)
+        ends = {}
+        for bid in fn.blocks:
+            lit = fn.literal(bid)
+            if not lit:
+                continue
+            atom, pos = lit
+            pth = T.path(atom)
+            if pth and pth.split("->")[-1] == "undo_file":
+                ends[fn.block_end(bid)] = pos
+        n_lit += 1 if ends else 0
+        if not ends:
+            raise Broken("%s: no test of the user-supplied undo file name" % fname)
+
+        def given_edge(n, si, m, _ends=ends):
+            if n in _ends:
+                # succ 0 is the edge on which the condition holds; condition == atom iff pos
+                return (si == 0) == _ends[n]
+            return True
+        removers = [n for n in fn.call_nodes() if is_call(n, "unlink", "remove", "truncate", "truncate64", "rename")
+                    or (is_call(n, "open", "open64", "ext2fs_open_file", "creat") and
+                        (arg_has_macro(n, 1, "O_TRUNC") or is_call(n, "creat")))]
+        r = fn.reach([fn.entry_node()], edge_ok=given_edge)
+        hit = [n for n in removers if n in r]
+        wit = None
+        if hit:
+            wp = fn.witness_path([fn.entry_node()], hit, edge_ok=given_edge)
+            wit = {"entry": fname, "lines": line_path(wp or [])}
+        rep.ob("C12.h", site(fn, "a user-named undo file is never removed or truncated"), not hit,
+               "with the undo file name given (every test of it true), no unlink/truncate is reachable in %s; "
+               "%d remover call(s) exist on the default-name path%s" % (
+                   fname, len(removers), "; reached: %s" % [h.text()[:40] for h in hit] if hit else ""), witness=wit)
+    rep.floor("C12.h setup functions with a name test", n_lit, 6)
 
     # ------------------------------------------------------------------ C12.e
     tr = ufile.get("try_reopen_undo_file")
